@@ -2,9 +2,9 @@
    C18/Proofs*.v and followed by Print Assumptions.  The models are C18/Model.v
    (Fourier part) and C18/ModelW.v (wavelet bookkeeping), tied to /repo by the
    correspondence shards (C18/Corr.v).  Carrier: R; [cx] = R * R. *)
-From Coq Require Import Reals List Bool Arith.
+From Coq Require Import QArith Qreals Reals List Bool Arith.
 From Verif Require Import Base.Num Base.Vec Lib.Axis C18.Model C18.ModelW C18.ModelH C18.ProofsGrid C18.ProofsDFT C18.ProofsCx
-  C18.ProofsAxis C18.ProofsFT C18.ProofsTrue C18.ProofsHC C18.ProofsTrueHC C18.ProofsSum C18.ProofsW C18.ProofsH C18.ProofsHN C18.ProofsHI.
+  C18.ProofsAxis C18.ProofsFT C18.ProofsTrue C18.ProofsHC C18.ProofsTrueHC C18.ProofsSum C18.ProofsW C18.ProofsH C18.ProofsHN C18.ProofsHI Base.Transfer Gen.FtFormulas C18.Transfer.
 Import ListNotations.
 Local Open Scope R_scope.
 
@@ -371,3 +371,23 @@ Theorem wavelet_nd_adjoint_scale_is_full_cell_volume : forall (L : nat) (shape a
   dot (haar_nd (sqrt 2) L shape axes x) c = inner_dom sides x (vscal s (ihaar_nd (sqrt 2) L shape axes c)) ->
   s = 1 / cell_volume sides.
 Proof. exact haar_nd_adjoint_scale_full. Qed.
+
+(* ------------------------------------------------------------------ *)
+(* T: TRANSFER.  The grid / frequency part of the model that the correspondence shards execute at Q
+   (exact rationals) is the rational restriction of the model the theorems above are about at R:
+   Q2R commutes with reciprocal_grid, realspace_grid (under the guard the code needs as well) and the
+   post-processing frequencies, all built from the regenerated formulas. *)
+Theorem reciprocal_grid_transfer : forall (pi : Q) (a : @axis Q) (tr : option bool) (half : bool),
+  (1 <= a_n a)%nat ->
+  axR (recip_axis pi a tr half) = recip_axis (Q2R pi) (axR a) tr half.
+Proof. exact recip_axis_transfer. Qed.
+Print Assumptions reciprocal_grid_transfer.
+Theorem realspace_grid_transfer : forall (pi : Q) (r : @axis Q) (x0 : Q) (tr : bool) (half : option bool),
+  (tr = true -> ~ (nmul (g_of_nat (real_n (a_n r) half)) (stride r) == 0)%Q) ->
+  axR (real_axis pi r x0 tr half) = real_axis (Q2R pi) (axR r) (Q2R x0) tr half.
+Proof. exact real_axis_transfer. Qed.
+Theorem postprocess_frequency_transfer : forall (n rn : nat) (sh : bool) (k : nat), (1 <= n)%nat ->
+  Q2R (freq n rn sh k) = freq n rn sh k.
+Proof. exact freq_transfer. Qed.
+Theorem grid_coordinate_transfer : forall (a : @axis Q) (k : nat), Q2R (coord a k) = coord (axR a) k.
+Proof. exact coord_transfer. Qed.
